@@ -21,6 +21,8 @@ Inductive mcase :=
 | CATCF (mean : list float) (ucov : list (list float)) (loglam : list float) (cov : list (list float)) (T : Z) (target : float)
         (start : Z) (decayc : float) (nsteps : Z) (ars x : list float)
         (mean' : list float) (ucov' : list (list float)) (loglam' : list float) (cov' : list (list float))
+| CSSC (cov : list (list float)) (nacc : Z) (target : float) (start : Z) (cap : option float) (nsteps : Z) (accepted : bool)
+       (cov' : list (list float)) (nacc' : Z)
 | CEigC (lg : float) (T : Z) (target : float) (start : Z) (decayc : float) (cov : list (list float)) (mu : list float)
         (nsteps : Z) (ar : float) (x : list float) (lg' : float) (cov' : list (list float)) (mu' : list float).
 
@@ -41,6 +43,10 @@ Definition mcase_ok (c : mcase) : bool :=
                   g_start := start; g_decayc := decayc |} in
       let q := atcf_update p nsteps ars x in
       fclose_list (g_mean q) mean' && fclose_mat (g_ucov q) ucov' && fclose_list (g_loglam q) loglam' && fclose_mat (g_cov q) cov'
+  | CSSC cov nacc target start cap nsteps acc cov' nacc' =>
+      let p := {| q_cov := cov; q_nacc := nacc; q_target := target; q_start := start; q_cap := cap |} in
+      let q := ssc_update p nsteps acc in
+      fclose_mat (q_cov q) cov' && Z.eqb (q_nacc q) nacc'
   | CEigC lg T target start decayc cov mu nsteps ar x lg' cov' mu' =>
       let p := {| r_log := lg; r_T := T; r_target := target; r_start := start; r_decayc := decayc |} in
       let '((c1, m1), q) := eigc_update p cov mu nsteps ar x in
